@@ -2,7 +2,7 @@
    correspondence cases (tools/props/c02.py). No proofs. *)
 From Coq Require Import List ZArith Bool Arith.
 From PV Require Import Base.Index Base.Perm Base.Sum Np.NpZ Np.Array Model.Sparse Model.Repr Model.Harness
-                       Model.C02Spec Model.C02Dense Model.C02Sparse Model.C02Modes Model.C02Kruskal Model.C02SpKernels Model.C02Absorb Model.C02Tenmat Model.C02SpMore Model.C02KruskalMore Model.C02Tucker Model.C02TuckerFull Model.C02TenmatReq.
+                       Model.C02Spec Model.C02Dense Model.C02Sparse Model.C02Modes Model.C02Kruskal Model.C02SpKernels Model.C02Absorb Model.C02Tenmat Model.C02SpMore Model.C02KruskalMore Model.C02Tucker Model.C02TuckerFull Model.C02TenmatReq Model.C02DimsReq.
 Import ListNotations.
 
 Definition zsp_ttv := @spec_ttv Z 0%Z Z.add Z.mul.
@@ -123,3 +123,5 @@ Definition zimpl_innerprod_k_sp (K : ktensor Z) (S : sparse Z) : Z :=
   fold_left (fun acc r => (acc + nth r (kweights K) 0 * zimpl_ttv_sp S (seq 0 (length (kfactors K))) (zkcols (kfactors K) r) [])%Z)
             (seq 0 (krank K)) 0%Z.
 Definition zimpl_ttt_req := @impl_ttt_req Z 0%Z Z.add Z.mul.
+Definition zimpl_collapse_req := @impl_collapse_req Z 0%Z (sumv 0%Z Z.add).
+Definition zimpl_scale_req := @impl_scale_req Z 0%Z Z.mul.
